@@ -18,7 +18,9 @@ Op lines (a case starts with `reset`):
   svccmd i=<idx> c=<text>     ctrl.servicecmd with another command
   stopdone succ=0|1           the INodeApp completes the oldest outstanding StopNode
   tick                        40 s pass
-  res i=<idx> up=0|1          INodeApp.GetService(s<idx>) starts returning nil / the pid again
+  res i=<idx> up=0|1          s<idx> leaves / rejoins the node's member record in the cluster directory
+  reflect                     the directory now shows the node state published last (no effect on the
+                              controller: resolving a hosted service does not depend on the node state shown)
 (reset also takes lst=<P|M...>: how the node's service list interleaves configured (P) and
 unconfigured (M) names for the real App.FilterSelfServices; it does not concern the model)
 Observation: `r=<class> pub=<states as the provider saw them> upd=<states as the node issued them> stop=<n> sent=<s<i>:<cmd>,...> st=<state>`
@@ -129,6 +131,7 @@ def step (d : DSt) (line : String) : DSt × String :=
         fin (if s.stopPend > 0 then "called" else "none") res
       | "tick" => fin "-" (NodeCtrl.step true s .tick)
       | "res" => fin "-" (NodeCtrl.step true s (.setRes (parseIdx ws) (kvNat ws "up" == some 1)))
+      | "reflect" => fin "-" (s, [])
       | _ => (d, "bad-op")
   | none => (d, "bad-op")
 
@@ -196,6 +199,7 @@ def specStep (m : Option Mon) (line : String) : Option Mon × String :=
       | some "stopdone", some m => run m (.stopDone (r == "called") (kvNat ws "succ" == some 1))
       | some "tick", some m => run m .tick
       | some "res", some m => run m (.setRes (parseIdx ws) (kvNat ws "up" == some 1))
+      | some "reflect", some m => run m .qnone
       | _, _ => (m, "ok")
   | _ => (m, "bad-line")
 
